@@ -225,7 +225,7 @@ let run line =
   end;
   Buffer.contents b
 
-(* sequences: "seq\t<mode>\t<go hex>\t<step>\t<step>..." with step = "reset" | sexp of a case.
+(* sequences: "seq\t<mode>\t<go hex>\t<step>\t<step>..." with step = "reset" | sexp of a case (Encode) | "write:" ^ sexp (Write).
    The encoder state is threaded through the values and reset where the script says; the reader's
    reference/class tables are threaded over each segment in the same way. *)
 let run_seq line =
@@ -241,8 +241,10 @@ let run_seq line =
     Stdlib.List.iter (fun step ->
       if step = "reset" then (st := Enc.einit; segments := Stdlib.List.rev !cur :: !segments; cur := [])
       else begin
+        let is_write = String.length step > 6 && String.sub step 0 6 = "write:" in
+        let step = if is_write then String.sub step 6 (String.length step - 6) else step in
         let (hp, root) = case_of (parse_sx step) in
-        (match Enc.enc simple hp fuel !st root with
+        (match (if is_write then Enc.enc_write simple hp fuel !st root else Enc.enc simple hp fuel !st root) with
          | Enc.EOk (st', w) -> st := st'; Buffer.add_string model_bytes (hex_of_bytes (Wire.emit w))
          | _ -> ok := false);
         cur := (Abs.abs_top hp fuel root) :: !cur
